@@ -217,7 +217,7 @@ REG = {
         "assumptions": ["tables are concrete (u16 by type), looked-up inputs concrete; recursive twins of the lookup constraints not compared"],
     },
     "C12": {
-        "families": [("S", "merkle", None, r"^C12\.")],
+        "families": [("S", "merkle", None, r"^C12\."), ("K", "hash_noop")],
         "explanation": (
             "Bounded symbolic verification of mechanisms (DESIGN.md section 5, C12) with the Poseidon permutation as a free "
             "function symbol (ideal-hash model): MerkleTree::new on symbolic leaves (n = 1..16, every cap height, leaf "
